@@ -31,6 +31,9 @@ const OPTS: &[(&str, Ty)] = &[
     ("keep-plus-minus-markers", Ty::Bool),
     ("file-style", Ty::Style),
     ("commit-style", Ty::Style),
+    // (values `normal <n>`: the two styles whose *default* delta rewrites under side-by-side)
+    ("minus-style", Ty::Style),
+    ("minus-emph-style", Ty::Style),
     ("right-arrow", Ty::Str),
     ("file-modified-label", Ty::Str),
     ("file-added-label", Ty::Str),
@@ -73,6 +76,7 @@ fn value_for(ty: Ty, opt: &str, src_index: usize, t: &mut Tape) -> String {
                 "false".into()
             }
         }
+        Ty::Style if opt.starts_with("minus-") => format!("normal {}", 201 + src_index),
         Ty::Style => format!("{}", 201 + src_index),
     }
 }
@@ -429,6 +433,7 @@ fn tables(ctx: &Ctx) -> Result<(BTreeMap<String, Builtin>, BTreeMap<String, Stri
             Ty::Int => "177".to_string(),
             Ty::Float => "0.77".to_string(),
             Ty::Bool => "false".to_string(),
+            Ty::Style if o.starts_with("minus-") => "normal 177".to_string(),
             Ty::Style => "177".to_string(),
         };
         zz.push_str(&format!("    {} = {}\n", o, v));
@@ -484,7 +489,7 @@ impl Prop for C13 {
         600
     }
     fn rule(&self) -> String {
-        "cases = placement of marker values for 16 observable options of every value type (string, bool, integer, float, style) over the sources: command line, main [delta] section, GIT_CONFIG_PARAMETERS (old and new quoting), up to three custom [delta \"f\"] sections (a quarter of them named like a builtin feature, i.e. the user's additions to it), the seven builtin features (what each defines is learnt from delta in the simplest setting `--features <b>`), defaults - under a generated feature graph: `features =` lists in main/custom sections (nested, repeated, acyclic), boolean feature flags in sections, --features, DELTA_FEATURES without '+' (a list of 1-3 features, as --features) and with '+' (one feature), feature flags on the command line; --no-gitconfig. Oracle: a reference resolver written from the documented order (command line > main section incl. env override > enabled features last-listed first, custom section before builtin value, --features/DELTA_FEATURES before flags > default; nested features: parent before its descendants) predicts every observed option's value as printed by --show-config; three constructions of the same configuration must print the same; with --no-gitconfig the result equals that of an empty gitconfig. Non-trivial = >=2 sources set some observed option and >=1 feature edge is nested; distinct by hash of the scenario.".to_string()
+        "cases = placement of marker values for 18 observable options of every value type (string, bool, integer, float, style) over the sources: command line, main [delta] section, GIT_CONFIG_PARAMETERS (old and new quoting), up to three custom [delta \"f\"] sections (a quarter of them named like a builtin feature, i.e. the user's additions to it), the seven builtin features (what each defines is learnt from delta in the simplest setting `--features <b>`), defaults - under a generated feature graph: `features =` lists in main/custom sections (nested, repeated, acyclic), boolean feature flags in sections, --features, DELTA_FEATURES without '+' (a list of 1-3 features, as --features) and with '+' (one feature), feature flags on the command line; --no-gitconfig. Oracle: a reference resolver written from the documented order (command line > main section incl. env override > enabled features last-listed first, custom section before builtin value, --features/DELTA_FEATURES before flags > default; nested features: parent before its descendants) predicts every observed option's value as printed by --show-config; three constructions of the same configuration must print the same; with --no-gitconfig the result equals that of an empty gitconfig. Non-trivial = >=2 sources set some observed option and >=1 feature edge is nested; distinct by hash of the scenario.".to_string()
     }
     fn assumptions(&self) -> Vec<String> {
         vec![
@@ -538,6 +543,11 @@ impl Prop for C13 {
             let (want, source) = resolve(&sc, o, &list, &builtins, &defaults);
             let want = normalise(o, &want);
             let got = shown.get(*o).cloned().unwrap_or_default();
+            if o.starts_with("minus-") && (source == "default" || source.starts_with("builtin feature")) {
+                // (the default of these two depends on side-by-side by design, and the builtin features
+                // define them by reference to other styles: neither is a question of precedence)
+                continue;
+            }
             // how many sources set it?
             let mut n = 0;
             if sc.cmd_opts.iter().any(|(k, _)| k == o) {
